@@ -455,3 +455,81 @@ def _cond_shape(facts):
     s = sorted(repr(t) for (t, pol) in facts)[-1]
     names = _re.findall(r"'([A-Za-z_:<>=!]+)'", s)
     return '-'.join(x for x in names if x not in ('v', 'm', 'b', 'c', 'k', 'op', 'u', 'e', 'f', 'mem', 'this'))[:60] or 'cond'
+
+
+def run_conditions(prog, rep):
+    """must()/should(): a getter that throws counts as a failed check (the message is produced), and the check is applied to the value"""
+    from ..sem import term, unwrap
+    rule = rep.rule('R-VALID-COND', 'must()/should(): the failing result is returned when the getter throws or the check rejects the value; error for must, warning for should', floor=2)
+    seen = {}
+    for f in sorted(prog.funcs.values(), key=lambda f: (f.q, f.sig)):
+        base = None
+        for b in ('nix::valid::must', 'nix::valid::should'):
+            if f.q == b or f.q.startswith(b + '<'):
+                base = b
+        if base is None or f.body is None:
+            continue
+        # only the getter-based overloads (pointer-to-member second parameter)
+        if len(f.params) < 3 or '::*' not in f.params[1]['type']:
+            continue
+        probs = []
+        tries = [n for n in f.walk() if n.k == 'try']
+        if len(tries) != 1:
+            probs.append('expected one try block around the getter')
+        else:
+            t = tries[0]
+            catches = [n for n in t.walk() if n.k == 'catch']
+            flags = set()
+            fails_in_catch = False
+            for c in catches:
+                for a in c.walk():
+                    if a.k == 'assign' and term(unwrap(a.c[1])) == ('k', True):
+                        l = term(unwrap(a.c[0]))
+                        if l[0] == 'v':
+                            flags.add(l)
+                    if a.k == 'return' and 'Message' in a.src(80):
+                        fails_in_catch = True
+            if not catches:
+                probs.append('an exception of the getter is not caught')
+            # the failing return after the try
+            fail_ifs = [i for i in f.walk() if i.k == 'if' and i.id > t.id and i.c[3] is not None and any(r.k == 'return' and 'Message' in r.src(80) for r in i.c[3].walk())]
+            if not fail_ifs and not fails_in_catch:
+                probs.append('no failing result is produced')
+            for i in fail_ifs:
+                ct = term(unwrap(i.c[2]))
+                parts = []
+
+                def disj(x):
+                    if isinstance(x, tuple) and x[:2] == ('b', '||'):
+                        disj(x[2]); disj(x[3])
+                    else:
+                        parts.append(x)
+                disj(ct)
+                by_flag = any(p in flags for p in parts)
+                # a flag that is also assigned from the check inside the try does not stand for "the getter threw" any more
+                reassigned = [a for a in t.c[0].walk() if a.k == 'assign' and term(unwrap(a.c[0])) in flags] if t.c and t.c[0] is not None else []
+                by_check = any(isinstance(p, tuple) and p[:2] == ('u', '!') and isinstance(p[2], tuple) and p[2][:2] == ('op', '()') for p in parts) or bool(reassigned)
+                if not (by_flag or fails_in_catch):
+                    probs.append('a getter that throws is not reported: the catch handler sets nothing that leads to the failing result (the broken entity passes validation)')
+                elif catches and not flags and not fails_in_catch:
+                    probs.append('a getter that throws is not reported')
+                if not by_check:
+                    probs.append('the check is not applied to the value')
+                ret = [r for r in i.c[3].walk() if r.k == 'return'][0]
+                args = [c for c in unwrap(ret.c[0]).walk() if c.k == 'construct' and 'Result' in c.src(20)]
+                rs = ret.src(120).replace(' ', '')
+                first_msg = re.search(r'Result\(valid::Message\(', rs) is not None or re.search(r'Result\(Message\(', rs) is not None
+                if base.endswith('must') and not first_msg:
+                    probs.append('must() does not produce an error (first slot)')
+                if base.endswith('should') and first_msg:
+                    probs.append('should() produces an error instead of a warning')
+        key = base.split('::')[-1]
+        if key in seen and not probs:
+            seen[key] += 1
+            continue
+        seen[key] = seen.get(key, 0) + 1
+        rule.check(not probs, '%s|getter-form%s' % (key, '' if not probs else '|' + f.sig[:60]), rep.where(f), f.label(), 'throwing getter or rejected value -> %s' % ('error' if key == 'must' else 'warning'), '; '.join(sorted(set(probs))[:2]))
+    if set(seen) != {'must', 'should'}:
+        raise AnalysisBroken('R-VALID-COND: getter forms of must/should not found (%s)' % sorted(seen))
+    rep.extra['condition_instantiations'] = seen
+    return rule
